@@ -591,6 +591,11 @@ func gen(t *rapid.T) Case {
 					sc = []any{"write"}
 				}
 				op["security"] = []any{M{n: sc}}
+				if g.chance(3, "opsecempty") {
+					// the explicit opt-out: no requirement for this operation, whatever the document says
+					op["security"] = []any{}
+					g.feats["op-security-empty"] = true
+				}
 			}
 			pi[meth] = op
 		}
